@@ -262,7 +262,7 @@ pub fn builder_seq(ops: &[u8], start_with_reducer: bool, probes: u8) {
                 let s_in: St = kani::any();
                 let act: Act = kani::any();
                 let disp: Arc<dyn Dispatcher<Act>> = Arc::new(store.clone());
-                let (_need, _out, eff) = store.do_reduce(&act, s_in, disp, rt::instant_now());
+                let (_need, _out, eff) = store.do_reduce(&act, s_in, disp, rt::now_model());
                 core::mem::forget(eff);
                 unsafe {
                     let mut id = 0;
